@@ -187,6 +187,7 @@ class Registry:
         self.namespace_effects = []   # (name, variables re-bound / bound / unbound by the call)
         self.calls_compared = 0
         self.results = []      # (name, args, result) for selected built-ins
+        self.raised = []       # (name, args, exception) for the same built-ins, when the call ended in an exception
         self.keep_results_of = set()
         self._register_identity()
         self.orig = dict(F.functions)
@@ -233,6 +234,10 @@ class Registry:
                 pass
             try:
                 result = fn(datastore, namespace, *args, **kwargs)
+            except BaseException as ex:
+                if name in reg.keep_results_of:
+                    reg.raised.append((name, list(args), ex))
+                raise
             finally:
                 if ns_before is not None:
                     try:
@@ -269,6 +274,7 @@ class Registry:
     def reset(self):
         self.trace = []
         self.results = []
+        self.raised = []
         self.arg_effects = []
         self.namespace_effects = []
 
